@@ -363,15 +363,31 @@ pub fn gen_world(seed: u64) -> C12World {
             }
         }
         em.used_kinds.push("tla");
+        // top-level arguments are lazy like everything else: an argument (and a default) that would fail, bound to a
+        // parameter the body never uses, must not fail the run
+        let lazy_arg = em.rng.chance(1, 3);
+        let lazy_default = em.rng.chance(1, 3);
+        if lazy_arg {
+            if em.rng.chance(1, 2) {
+                tla_args.push("--tla-code".into());
+                tla_args.push("pz=error \"unused top-level argument evaluated\"".into());
+            } else {
+                em.files.push(("lib/tlaz.jsonnet".into(), b"error \"unused top-level argument file evaluated\"".to_vec()));
+                tla_args.push("--tla-code-file".into());
+                tla_args.push("pz=lib/tlaz.jsonnet".into());
+            }
+            em.used_kinds.push("unused-failing-tla-code");
+        }
+        let extra_params = format!("{}{}", if lazy_arg { ", pz=0" } else { "" }, if lazy_default { ", pd=error \"unused default evaluated\"" } else { "" });
         let d1l = Emit::lit(&Json::Str(d1));
         match &mut value {
             Json::Str(s) => {
-                body = format!("function(p1={d1l}, p0) {body} + p0 + p1");
+                body = format!("function(p1={d1l}, p0{extra_params}) {body} + p0 + p1");
                 s.push_str(&x0);
                 s.push_str(&x1);
             }
             Json::Arr(a) => {
-                body = format!("function(p0, p1={d1l}) {body} + [[p0, p1]]");
+                body = format!("function(p0, p1={d1l}{extra_params}) {body} + [[p0, p1]]");
                 a.push(Json::Arr(vec![Json::Str(x0), Json::Str(x1)]));
             }
             Json::Obj(o) => {
@@ -380,7 +396,7 @@ pub fn gen_world(seed: u64) -> C12World {
                     _ => ("[p0, p1]".to_string(), Json::Arr(vec![Json::Str(x0), Json::Str(x1)])),
                 };
                 o.retain(|(k, _)| k != "tla_t");
-                body = format!("function(p0, p1={d1l}) {body} + {{ tla_t: {extra} }}");
+                body = format!("function(p0, p1={d1l}{extra_params}) {body} + {{ tla_t: {extra} }}");
                 o.push(("tla_t".into(), ev));
             }
             _ => unreachable!(),
@@ -534,6 +550,20 @@ pub fn gen_world(seed: u64) -> C12World {
     }
     for (p, d) in &em.files {
         tree.push((p.clone(), Entry::File(d.clone())));
+    }
+    if let (Some(m), Json::Obj(fields)) = (&mode.m, &value) {
+        // files left by an earlier, larger run under the names of this run's fields: they must be replaced, not
+        // overwritten in place
+        if tree.iter().any(|(p, e)| p == m && matches!(e, Entry::Dir)) {
+            for (k, _) in fields {
+                if em.rng.chance(1, 4) && !k.contains('/') {
+                    let mut stale = b"stale content of an earlier run\n".to_vec();
+                    stale.extend(std::iter::repeat(b'x').take(40 + em.rng.usize_below(3000)));
+                    stale.push(b'\n');
+                    tree.push((format!("{m}/{k}"), Entry::File(stale)));
+                }
+            }
+        }
     }
     let mut env = em.env.clone();
     if em.rng.chance(1, 8) {
@@ -849,6 +879,19 @@ pub fn fault_plans(log: &[LogLine], rng: &mut Rng, limit: usize) -> Vec<FaultPla
     plans
 }
 
+/// -m files that exist before the run (left by "an earlier run"), by field name.
+fn m_files_before(w: &C12World) -> BTreeMap<String, Vec<u8>> {
+    let mut out = BTreeMap::new();
+    if let Some(m) = &w.mode.m {
+        for (p, e) in &w.world.tree {
+            if let (Some(rest), Entry::File(d)) = (p.strip_prefix(&format!("{m}/")), e) {
+                out.insert(rest.to_string(), d.clone());
+            }
+        }
+    }
+    out
+}
+
 fn is_prefix(a: &[u8], of: &[u8]) -> bool {
     of.len() >= a.len() && &of[..a.len()] == a
 }
@@ -927,10 +970,13 @@ pub fn check_fault_run(w: &C12World, e: &Sinks, base_exit: Option<i32>, plan: &F
             (Some(a), None) if Some(a) != w.o_before.as_ref() => return bad("I3", "o-file-unexpected", "-o file appeared".into()),
             _ => {}
         }
+        let m_before = m_files_before(w);
         for (k, v) in &sinks.m {
             match e.m.get(k) {
                 Some(full) if is_prefix(v, full) => {}
-                _ => return bad("I3", "m-file-not-prefix", format!("-m file {k} is not a prefix of its manifestation")),
+                // not reached by the failing run: still what an earlier run left there
+                _ if m_before.get(k) == Some(v) => {}
+                _ => return bad("I3", "m-file-not-prefix", format!("-m file {k} is neither untouched nor a prefix of its manifestation")),
             }
         }
     } else {
